@@ -274,9 +274,14 @@ func run(c *wk.Ctx) {
 	for i := 0; i < n; i++ {
 		if c.Mine(i) {
 			runCase(c, i)
+			if atomic.LoadInt32(&abortShard) != 0 {
+				break // writers are parked for good in this process: one witness is enough, do not wait out every case
+			}
 		}
 	}
 }
+
+var abortShard int32
 
 func runCase(c *wk.Ctx, i int) {
 	r := c.Rand(i)
@@ -468,6 +473,7 @@ func runCase(c *wk.Ctx, i int) {
 	}
 	if ok, vd := hang.WaitOrInspect(done, 60*time.Second, 4*time.Second, 20, func() int64 { return atomic.LoadInt64(&returns) }, inWritePath); !ok {
 		if vd != nil {
+			atomic.StoreInt32(&abortShard, 1)
 			fail("writer-never-returned", fmt.Sprintf("%d of %d write calls have not returned: a writer is parked in %s [%s] and nothing can make progress (other blocked: %v)", atomic.LoadInt64(&calls)-atomic.LoadInt64(&returns), atomic.LoadInt64(&calls), vd.Parked, vd.ParkedIn, vd.Others), map[string]interface{}{"verdict": vd})
 		} else {
 			c.Inconclusive("writers slow to return, no stable blocked state")
@@ -482,6 +488,7 @@ func runCase(c *wk.Ctx, i int) {
 		return strings.Contains(js, "main.runCase") && strings.Contains(js, "goleveldb/leveldb.")
 	}); !ok {
 		if vd != nil {
+			atomic.StoreInt32(&abortShard, 1)
 			fail("competitor-never-returned", fmt.Sprintf("a transaction / CompactRange client is parked in %s [%s] and nothing can make progress", vd.Parked, vd.ParkedIn), map[string]interface{}{"verdict": vd})
 		} else {
 			c.Inconclusive("competitors slow to return, no stable blocked state")
